@@ -34,11 +34,15 @@ class Task(object):
                 import numpy as np
                 return np.float64(v)
             return v
+        if self.kind == 'none':
+            return None           # a task without a return value (one that only writes a file, say)
         out = {'tid': self.tid, 'payload': b'x' * self.size}
         if self.lnpdf is not None:
             import numpy as np
             from MTfit.probability import LnPDF
             out['ln_pdf'] = LnPDF(np.array([self.lnpdf['values']]), dV=self.lnpdf['dV'])
+            if 'second' in self.lnpdf:
+                out['ln_pdf_b'] = LnPDF(np.array([self.lnpdf['second']['values']]), dV=self.lnpdf['second']['dV'])
         return out
 
 
@@ -56,6 +60,8 @@ def describe(obj):
         return 'code:%d' % obj
     if isinstance(obj, float):
         return 'num:%d' % int(obj)
+    if obj is None:
+        return 'num:none'
     return 'other:%s' % name
 
 
@@ -93,11 +99,17 @@ def main():
                 import numpy as np
                 e['lnpdf'] = {'values': [float(v) for v in np.asarray(r['ln_pdf']._ln_pdf).flatten()], 'dV': r['ln_pdf'].dV,
                               'cls': type(r['ln_pdf']).__name__}
+            if 'ln_pdf_b' in r:
+                import numpy as np
+                e['lnpdf_b'] = {'values': [float(v) for v in np.asarray(r['ln_pdf_b']._ln_pdf).flatten()], 'dV': r['ln_pdf_b'].dV,
+                                'cls': type(r['ln_pdf_b']).__name__}
             returned.append(e)
         elif isinstance(r, Exception):
             returned.append({'tid': int(str(r).split('=')[1]), 'type': 'exc', 'cls': type(r).__name__})
         elif isinstance(r, float):
             returned.append({'tid': None, 'type': 'num', 'value': float(r)})
+        elif r is None:
+            returned.append({'tid': None, 'type': 'num', 'value': None})
         else:
             returned.append({'tid': None, 'type': 'other', 'repr': repr(r)})
     tasks = {t['tid']: t for t in case['tasks']}
